@@ -96,4 +96,141 @@ theorem modify_decr (names : List Py.Str) (rp : Row × Nat) :
       unfold sqlRow specRow at ih ⊢
       simp only [List.map_cons, List.modify_succ_cons, ih, sqlCell_ne_rowID c hc0]
 
+theorem starCols_no_rowID (names : List Py.Str) : ∀ c ∈ starCols names, c ≠ .rowID := by
+  intro c hc
+  simp only [starCols, List.mem_append, List.mem_map] at hc
+  rcases hc with ⟨s, _, rfl⟩ | ⟨k, _, rfl⟩ <;> simp
+
+theorem starCols_length (names : List Py.Str) : (starCols names).length = 14 + names.length := by
+  simp [starCols, StdCol.all]
+
+theorem project_eq (cols : List Col) (rp : Row × Nat) :
+    Spec.project cols rp = if cols.length = 1 then .one ((specRow cols rp).headD (.int 0)) else .many (specRow cols rp) := by
+  unfold Spec.project specRow
+  match cols with
+  | [] => simp
+  | [c] => simp
+  | c :: d :: t => simp
+
+theorem contains_idxOf? {α : Type} [DecidableEq α] (a : α) : ∀ (l : List α), l.contains a = true → ∃ i, l.idxOf? a = some i
+  | [], h => by simp at h
+  | b :: t, h => by
+    by_cases hb : b = a
+    · exact ⟨0, by simp [List.idxOf?, List.findIdx?_cons, hb]⟩
+    · have : t.contains a = true := by
+        simp only [List.contains_iff_mem, List.mem_cons] at h ⊢
+        rcases h with h | h
+        · exact absurd h.symm hb
+        · exact h
+      obtain ⟨i, hi⟩ := contains_idxOf? a t this
+      refine ⟨i + 1, ?_⟩
+      simp only [List.idxOf?] at hi ⊢
+      simp [List.findIdx?_cons, hb, hi]
+
+/-- the rows the SELECT returns, after `_format_get_output`, are the requested attributes of the selected
+    atoms, a single attribute flattened -/
+theorem finish_correct (names : List Py.Str) (columns : Py.Str) (hok : ColsOK names columns = true)
+    (cols : List Col) (hcols : Spec.colsOf names columns = some cols) (sel : List (Row × Nat)) :
+    finish columns (sel.map (sqlRow cols)) = .ok (sel.map (Spec.project cols)) := by
+  -- the SQL rows with the rowID column shifted back are the requested rows
+  have hfix : fixRowID columns (sel.map (sqlRow cols)) = .ok (sel.map (specRow cols)) := by
+    unfold Spec.colsOf at hcols
+    by_cases hstar : columns = "*".toList
+    · subst hstar
+      simp only [if_true, Option.some.injEq] at hcols
+      subst hcols
+      have h0 : Py.strIn rowIDName "*".toList = false := by decide
+      simp only [fixRowID, h0, Bool.false_eq_true, if_false]
+      congr 1
+      apply List.map_congr_left
+      intro rp _
+      exact sqlRow_no_rowID _ (starCols_no_rowID names) rp
+    · simp only [hstar, if_false] at hcols
+      have hf := (option_mapM_eq_some _ _ _).1 hcols
+      unfold ColsOK at hok
+      have hs : (columns == "*".toList) = false := by simpa using hstar
+      simp only [hs, Bool.false_or, Bool.and_eq_true, List.all_eq_true, decide_eq_true_eq, Bool.or_eq_true,
+        bne_iff_ne, ne_eq, beq_iff_eq] at hok
+      obtain ⟨⟨⟨h1, h2⟩, h3⟩, h4⟩ := hok
+      have hh : ∀ p ∈ Py.splitOn ',' columns, Py.strip p = rowIDName → p = rowIDName := by
+        intro p hp hsp
+        rcases h2 p hp with h | h
+        · exact absurd hsp h
+        · exact h
+      unfold fixRowID
+      by_cases hin : Py.strIn rowIDName columns = true
+      · rw [hin] at h4
+        obtain ⟨i, hi⟩ := contains_idxOf? rowIDName _ h4.symm
+        simp only [hin, if_true, hi, List.map_map]
+        congr 1
+        apply List.map_congr_left
+        intro rp _
+        exact modify_decr names rp _ _ hf hh h3 i hi
+      · have hin' : Py.strIn rowIDName columns = false := by simpa using hin
+        rw [hin'] at h4
+        simp only [hin', Bool.false_eq_true, if_false]
+        congr 1
+        apply List.map_congr_left
+        intro rp _
+        apply sqlRow_no_rowID
+        intro c hc hcr
+        subst hcr
+        obtain ⟨q, hq, hres⟩ := forall₂_mem_right hf _ hc
+        have := hh q hq ((resolve_eq_rowID_iff names _).1 hres)
+        subst this
+        have : (Py.splitOn ',' columns).contains rowIDName = true := by simpa using hq
+        rw [this] at h4; cases h4
+  cases sel with
+  | nil => rfl
+  | cons rp0 rest =>
+    simp only [List.map_cons] at hfix ⊢
+    unfold finish
+    simp only [hfix]
+    have hlen : (sqlRow cols rp0).length = cols.length := by simp [sqlRow]
+    rw [hlen]
+    by_cases h1 : cols.length = 1
+    · simp only [h1, if_true, ← List.map_cons, List.map_map]
+      congr 1
+      apply List.map_congr_left
+      intro rp _
+      simp [project_eq, h1]
+    · simp only [h1, if_false, ← List.map_cons, List.map_map]
+      congr 1
+      apply List.map_congr_left
+      intro rp _
+      simp [project_eq, h1]
+
+/-- a well-formed column string passes the validation, and the SELECT list is the requested attribute list -/
+theorem cols_ok (db : Db) (h : WF db) (columns : Py.Str) (hok : ColsOK db.extraNames columns = true) :
+    validCols db columns = true ∧ ∃ cols, Spec.colsOf db.extraNames columns = some cols ∧ sqlCols db columns = .ok cols := by
+  by_cases hstar : columns = "*".toList
+  · subst hstar
+    exact ⟨by simp [validCols], starCols db.extraNames, by simp [Spec.colsOf], by simp [sqlCols]⟩
+  · unfold ColsOK at hok
+    have hs : (columns == "*".toList) = false := by simpa using hstar
+    simp only [hs, Bool.false_or, Bool.and_eq_true, List.all_eq_true] at hok
+    obtain ⟨⟨⟨h1, _⟩, _⟩, _⟩ := hok
+    refine ⟨by simp only [validCols, hs, Bool.false_or, List.all_eq_true]; exact h1, ?_⟩
+    have hmem : ∀ p ∈ Py.splitOn ',' columns, Py.strip p ∈ db.colnames := by
+      intro p hp; simpa [Db.colnames] using h1 p hp
+    have key : ∀ (parts : List Py.Str), (∀ p ∈ parts, Py.strip p ∈ db.colnames) →
+        ∃ cols, parts.mapM (fun p => resolve db.extraNames (Py.strip p)) = some cols ∧
+          parts.mapM (fun p => match sqlCol db (Py.strip p) with
+            | some c => Except.ok c
+            | none => Except.error Err.operational) = .ok cols := by
+      intro parts
+      induction parts with
+      | nil => intro _; exact ⟨[], rfl, rfl⟩
+      | cons p ps ih =>
+        intro hm
+        obtain ⟨cs, i1, i2⟩ := ih (fun q hq => hm q (List.mem_cons_of_mem _ hq))
+        obtain ⟨c, hc⟩ := resolve_of_mem db.extraNames _ (hm p (by simp))
+        have hsql := sqlCol_eq_resolve db h _ (hm p (by simp))
+        rw [hc] at hsql
+        refine ⟨c :: cs, ?_, ?_⟩
+        · rw [List.mapM_cons, hc, i1]; rfl
+        · rw [List.mapM_cons, hsql, i2]; rfl
+    obtain ⟨cols, c1, c2⟩ := key _ hmem
+    exact ⟨cols, by simp [Spec.colsOf, hstar, c1], by simp [sqlCols, hstar, c2]⟩
+
 end TableProofs
